@@ -94,16 +94,42 @@ pub struct ModeOracle {
     emissions_after_ack_checked: u64,
     passed_packets: u64,
     marks_checked: u64,
+    /// report only the clause about acknowledgement marks (used by C15)
+    marks_only: bool,
 }
 
 impl ModeOracle {
+    pub fn marks_only(property: &'static str) -> Self {
+        let mut o = Self::new(property);
+        o.marks_only = true;
+        o
+    }
+
     pub fn new(property: &'static str) -> Self {
-        Self { property, conns: BTreeMap::new(), index: ConnIndex::default(), steps: BTreeMap::new(), fragments_seen: 0, resends_seen: 0, ts_emitted: 0, ts_deadline_checked: 0, acked_fragments: 0, emissions_after_ack_checked: 0, passed_packets: 0, marks_checked: 0 }
+        Self { property, conns: BTreeMap::new(), index: ConnIndex::default(), steps: BTreeMap::new(), fragments_seen: 0, resends_seen: 0, ts_emitted: 0, ts_deadline_checked: 0, acked_fragments: 0, emissions_after_ack_checked: 0, passed_packets: 0, marks_checked: 0, marks_only: false }
     }
 }
 
 impl Oracle for ModeOracle {
     fn on(&mut self, rec: &Rec, cx: &Cx) -> Option<Violation> {
+        let v = self.on_all(rec, cx);
+        match v {
+            Some(v) if self.marks_only && v.clause != "marked_acknowledged_without_ack" => None,
+            other => other,
+        }
+    }
+
+    fn reach(&self, out: &mut BTreeMap<String, u64>) {
+        self.reach_all(out)
+    }
+
+    fn nontrivial(&self) -> bool {
+        self.marks_only || self.fragments_seen >= 10
+    }
+}
+
+impl ModeOracle {
+    fn on_all(&mut self, rec: &Rec, cx: &Cx) -> Option<Violation> {
         let prop = self.property;
         self.index.observe(rec, cx);
         match rec {
@@ -284,7 +310,7 @@ impl Oracle for ModeOracle {
         None
     }
 
-    fn reach(&self, out: &mut BTreeMap<String, u64>) {
+    fn reach_all(&self, out: &mut BTreeMap<String, u64>) {
         let mut a = |k: &str, v: u64| *out.entry(k.to_string()).or_insert(0) += v;
         a("fragments_on_wire_checked", self.fragments_seen);
         a("fragment_retransmissions_seen", self.resends_seen);
@@ -294,10 +320,6 @@ impl Oracle for ModeOracle {
         a("emissions_checked_against_processed_ack", self.emissions_after_ack_checked);
         a("packets_passed_by_window", self.passed_packets);
         a("fragment_acknowledgement_marks_checked", self.marks_checked);
-    }
-
-    fn nontrivial(&self) -> bool {
-        self.fragments_seen >= 10
     }
 }
 
